@@ -18,11 +18,16 @@ package main
 import (
 	"context"
 	"fmt"
+	"io"
 	"math/rand"
+	"strings"
 	"sync"
 	"sync/atomic"
 	"time"
 
+	"github.com/opencontainers/go-digest"
+
+	"github.com/olareg/olareg/internal/verif/vfs"
 	"github.com/olareg/olareg/internal/verif/vh"
 )
 
@@ -550,5 +555,92 @@ func tickSequence(r *vh.Run, i int) {
 	}
 	if rs := vh.Do(srv, vh.Req{Method: "GET", URL: "/v2/t/manifests/keep", H: map[string]string{"Accept": vh.AcceptAll}}); rs.Status != 200 {
 		r.Violation("tagged-image-lost:tick-sequence", fmt.Sprintf("the tagged image is gone after the passes (status %d)", rs.Status), wit)
+	}
+}
+
+// completionRace (C05, binary built with the filesystem shim): a collection and the completion of an upload meet on
+// one blob file.  An unreferenced copy of X, older than the grace period, lies in the store; a client uploads X again
+// through a session.  The collection is held (by the shim, right before the call) at the moment it removes the old
+// copy - it has looked at the file's age already - and the completing PUT is let go.  Whatever the order the store
+// chooses: a PUT answered 201 means X is served afterwards - it is an upload younger than the grace period.
+func completionRace(r *vh.Run, i int) {
+	root := r.TempDir("crace")
+	defer vh.RemoveAll(root)
+	srv := vh.New(vh.Conf(vh.Dir, root, vh.Policy{Untagged: true, Dangling: true, WithSubj: true, Grace: time.Hour}))
+	defer func() { _ = srv.Close() }()
+	x := []byte(fmt.Sprintf("content uploaded twice %d", i))
+	xd := vh.DigestOf("sha256", x)
+	wit := map[string]any{"trial": i}
+	if rs := vh.Do(srv, vh.Req{Method: "POST", URL: "/v2/t/blobs/uploads/?digest=" + xd, Body: x}); rs.Status != 201 {
+		r.Inconclusive("completionRace: first upload refused")
+		return
+	}
+	if err := srv.VerifSetBlobTime(context.Background(), "t", digest.Digest(xd), time.Now().Add(-3*time.Hour)); err != nil {
+		r.Inconclusive("completionRace: cannot age the blob: " + err.Error())
+		return
+	}
+	ns := vh.Do(srv, vh.Req{Method: "POST", URL: "/v2/t/blobs/uploads/"})
+	loc := ns.H.Get("Location")
+	if ns.Status != 202 || loc == "" {
+		r.Inconclusive("completionRace: no session")
+		return
+	}
+	atRemove, resume := make(chan struct{}), make(chan struct{})
+	var once sync.Once
+	unreg := vfs.Register(root, func(ev vfs.Event) {
+		if ev.Phase == "before" && ev.Op == "remove" && strings.HasSuffix(ev.Path, xd[7:]) && strings.Contains(ev.Path, "/blobs/") {
+			fire := false
+			once.Do(func() { fire = true })
+			if fire {
+				close(atRemove)
+				<-resume
+			}
+		}
+	})
+	defer unreg()
+	// the completing PUT: the handler has found the session and is reading the body
+	pr, pw := io.Pipe()
+	putDone := make(chan int, 1)
+	go func() {
+		rs := vh.DoStream(srv, "PUT", loc+"&digest="+xd, nil, pr)
+		putDone <- rs.Status
+	}()
+	if _, err := pw.Write(x); err != nil {
+		r.Inconclusive("completionRace: body not read")
+		return
+	}
+	gcDone := make(chan struct{})
+	go func() { _ = srv.VerifGC(context.Background(), "t"); close(gcDone) }()
+	select {
+	case <-atRemove:
+	case <-gcDone:
+		// the collection did not try to remove the old copy (nothing to decide)
+		_ = pw.Close()
+		<-putDone
+		r.Count("completion_race_not_reached", 1)
+		return
+	}
+	_ = pw.Close() // the body ends: the handler completes the upload while the collection stands right before the removal
+	status := 0
+	select {
+	case status = <-putDone:
+		wit["completion"] = "returned while the collection was held"
+	case <-time.After(300 * time.Millisecond):
+		wit["completion"] = "waited for the collection"
+	}
+	close(resume)
+	<-gcDone
+	if status == 0 {
+		status = <-putDone
+	}
+	r.Count("completion_race_trials", 1)
+	r.Distinct("completion_outcomes", fmt.Sprint(wit["completion"], " / ", status))
+	wit["put_status"] = status
+	if status != 201 {
+		return // refused completions promise nothing
+	}
+	rs := vh.Do(srv, vh.Req{Method: "GET", URL: "/v2/t/blobs/" + xd})
+	if rs.Status != 200 || string(rs.Body) != string(x) {
+		r.Violation("acknowledged-upload-removed-by-collection", fmt.Sprintf("directory store: the completing PUT of a session upload was answered 201 while a collection stood right before removing an older, expired copy of the same blob; afterwards GET of the blob answers %d - an upload acknowledged a moment ago, far younger than the grace period (1 h), is gone", rs.Status), wit)
 	}
 }
